@@ -282,6 +282,18 @@ pub fn points(tier: Tier) -> Vec<P19> {
             }
         }
     }
+    // mixed-decimals pools whose reserves hold the same number of raw units of every asset (balanced in raw units, heavily
+    // imbalanced in value)
+    for amp in &amps {
+        for decs in &decsets {
+            if decs.iter().all(|d| d == &decs[0]) {
+                continue;
+            }
+            for raw in [1_000_000_000u128, 3_000_000_000_007] {
+                v.push(P19 { amp: *amp, decs: decs.clone(), res: vec![raw; decs.len()], unsorted: false, dust_deposit_with_tolerance: false });
+            }
+        }
+    }
     v
 }
 
